@@ -1,20 +1,20 @@
 (* The translator tie, part 3b: Default for Generator, the clap defaults, MutatorKind::all_mutators and create
-   (gen/SrcConsts.v) are the model's. *)
+   (gen/SrcAscii.v, gen/SrcFront.v, gen/SrcMut.v) are the model's. *)
 From Coq Require Import List NArith ZArith Bool Arith Lia.
 Import ListNotations.
 From PF Require Import Opcodes RefTable Config Sim.
 From PF Require Import Lex Entropy Mutators Front.
-From PF.gen Require SrcConsts.
+From PF.gen Require SrcFront.
 
 Lemma src_defaults_eq :
-  SrcConsts.Src.gen_default_min = default_min /\ SrcConsts.Src.gen_default_max = default_max
-  /\ SrcConsts.Src.gen_default_rate = default_rate /\ SrcConsts.Src.gen_default_flags = [false; false; false]
-  /\ SrcConsts.Src.cli_default_min = default_min /\ SrcConsts.Src.cli_default_max = default_max
-  /\ SrcConsts.Src.cli_default_rate = default_rate /\ SrcConsts.Src.cli_default_samples = default_samples.
+  SrcFront.Src.gen_default_min = default_min /\ SrcFront.Src.gen_default_max = default_max
+  /\ SrcFront.Src.gen_default_rate = default_rate /\ SrcFront.Src.gen_default_flags = [false; false; false]
+  /\ SrcFront.Src.cli_default_min = default_min /\ SrcFront.Src.cli_default_max = default_max
+  /\ SrcFront.Src.cli_default_rate = default_rate /\ SrcFront.Src.cli_default_samples = default_samples.
 Proof. repeat split. Qed.
 
-Lemma src_all_mutators_eq : forall u, SrcConsts.Src.all_mutators u = all_mutators u.
+Lemma src_all_mutators_eq : forall u, SrcFront.Src.all_mutators u = all_mutators u.
 Proof. destruct u; reflexivity. Qed.
 
-Lemma src_create_eq : forall u k, SrcConsts.Src.create u k = create u k.
+Lemma src_create_eq : forall u k, SrcFront.Src.create u k = create u k.
 Proof. destruct k; reflexivity. Qed.
